@@ -212,6 +212,51 @@ CATALOGUE += [
 ]
 
 
+# A value read through a field / index / map lookup is a pointer inside the interpreter: every consumer must
+# treat it like the plain value.  source x consumer position, deterministic.
+_PSRC = ("class Pk {\n fi: int\n fb: bool\n fs: str\n fl: [int...]\n constructor(self) {\n  self.fi = 3\n  self.fb = true\n"
+         "  self.fs = \"ab\"\n  self.fl = [1, 2]\n }\n fn idm(self, a: int) -> int {\n  return a\n }\n}\n"
+         "pk = Pk()\nli: [int...] = [3, 4]\nlb: [bool...] = [true, false]\nls: [str...] = [\"ab\"]\n"
+         "mi = map[str, int] { \"k\": 3 }\nidf = fn(a: int) -> int {\n return a\n}\n")
+_INT_SRC = {"field": "pk.fi", "index": "li[0]", "mapget": "(get mi[\"k\"])"}
+_BOOL_SRC = {"field": "pk.fb", "index": "lb[0]"}
+_STR_SRC = {"field": "pk.fs", "index": "ls[0]"}
+_INT_POS = {
+    "neg": "-(%s)", "binop_left": "%s + 1", "binop_right": "1 + %s", "mul": "%s * %s", "cmp": "%s < 5", "eq": "%s == 3",
+    "call_arg": "idf(%s)", "method_arg": "pk.idm(%s)", "list_elem": "[%s, 9]", "str_concat": "\"n\" + %s",
+    "to_str": "(%s).to_str()", "pow": "(%s).pow(2)", "shift": "1 << %s", "bitand": "%s & 1", "div": "12 / %s", "rem": "12 % %s",
+    "or_primary": "(%s) or 0",
+}
+_INT_STMT = {
+    "if_cmp": "if %s > 1 {\n q = 1\n}\n", "from_bound": "tq = 0\nfrom 0 to %s {\n tq += 1\n}\n" + T("tq"),
+    "from_start": "tq = 0\nfrom %s to 5 {\n tq += 1\n}\n" + T("tq"), "from_step": "tq = 0\nfrom 0 to 7 step %s {\n tq += 1\n}\n" + T("tq"),
+    "opassign_rhs": "tq = 1\ntq += %s\n" + T("tq"), "index_with": "tq = li[%s - 3]\n" + T("tq"),
+    "map_value": "mq = map[str, int] { \"z\": %s }\n" + T("mq"), "return": "rq = fn() -> int {\n return %s\n}\n" + T("rq() + 1"),
+    "store_then_use": "tq = %s\n" + T("tq + 1") + T("-tq"), "unwrap_assign": "oq: int? = nil\nif oq ?= %s {\n" + T("oq") + "}\n",
+    "push": "lq: [int...] = [0]\nlq.push(%s)\nlq[1] += 1\n" + T("lq"),
+}
+_BOOL_POS = {"not": "!(%s)", "and_left": "%s && true", "and_right": "true && %s", "or_left": "%s || false", "or_right": "false || %s",
+             "eq": "%s == true", "xor": "%s ^ true"}
+_BOOL_STMT = {"if": "if %s {\n q = 1\n}\n", "while": "wq = 0\nwhile %s {\n wq += 1\n break\n}\n" + T("wq"), "assert": "assert %s\n",
+              "if_not": "if !(%s) {\n q = 1\n}\n", "return": "rq = fn() -> bool {\n return %s\n}\n" + T("rq() && true"),
+              "filter_result": "fq = fn(a: int) -> bool {\n return %s\n}\n" + T("li.filter(fq)")}
+_STR_POS = {"concat": "%s + \"c\"", "len": "(%s).len()", "mul": "%s * 2", "eq": "%s == \"ab\"", "contains": "(%s).contains(\"a\")",
+            "index": "(%s)[0]"}
+for _sn, _se in _INT_SRC.items():
+    for _pn, _pt in _INT_POS.items():
+        CATALOGUE.append(("ptr_%s_%s" % (_sn, _pn), _PSRC + T(_pt.replace("%s", _se))))
+    for _pn, _pt in _INT_STMT.items():
+        CATALOGUE.append(("ptr_%s_%s" % (_sn, _pn), _PSRC + _pt.replace("%s", _se) + T("1")))
+for _sn, _se in _BOOL_SRC.items():
+    for _pn, _pt in _BOOL_POS.items():
+        CATALOGUE.append(("ptrb_%s_%s" % (_sn, _pn), _PSRC + T(_pt.replace("%s", _se))))
+    for _pn, _pt in _BOOL_STMT.items():
+        CATALOGUE.append(("ptrb_%s_%s" % (_sn, _pn), _PSRC + _pt.replace("%s", _se) + T("1")))
+for _sn, _se in _STR_SRC.items():
+    for _pn, _pt in _STR_POS.items():
+        CATALOGUE.append(("ptrs_%s_%s" % (_sn, _pn), _PSRC + T(_pt.replace("%s", _se))))
+
+
 def run_case(item):
     kind, arg = item
     if kind == "rand":
